@@ -38,7 +38,7 @@ def sig_of(kind):
     return getattr(signals, "E" + kind[1:])
 
 
-def build_template(c, regs, hsm, log, use_factory=False, name_handled=False, fns=None):
+def build_template(c, regs, hsm, log, use_factory=False, name_handled=False, fns=None, bound=False):
     """state_method_template + register_signal_callback + register_parent on `hsm`
     (fns: template state functions already in use by another chart, to be shared)"""
     cbs = {}
@@ -57,6 +57,27 @@ def build_template(c, regs, hsm, log, use_factory=False, name_handled=False, fns
             return return_status.UNHANDLED
         cb.__name__ = "handled" if (name_handled and cbk == "H") else "cb_%d_%s_%s%d" % (i, kind, cbk, tgt)
         return cb
+    collaborator = None
+    if bound:
+        # handlers that are bound methods of ANOTHER object (a collaborator that knows the chart): the template calls them as fn(e)
+        class Collaborator:
+            def __init__(self, chart):
+                self.chart = chart
+                self.calls = 0
+        collaborator = Collaborator(hsm)
+
+        def mk_cb(i, kind, cbk, tgt):  # noqa: F811
+            def method(self, e):
+                self.calls += 1
+                log.append((i, kind))
+                if cbk == "T":
+                    return self.chart.trans(fns[tgt])
+                if cbk == "H":
+                    return return_status.HANDLED
+                return return_status.UNHANDLED
+            method.__name__ = "cb_%d_%s_%s%d" % (i, kind, cbk, tgt)
+            setattr(Collaborator, method.__name__, method)
+            return getattr(collaborator, method.__name__)
     for i in range(1, c.n + 1):
         for kind, cbk, tgt in regs[i]:
             cb = mk_cb(i, kind, cbk, tgt)
@@ -126,9 +147,9 @@ def run_build(c, regs, style, start, evs, name_handled=False):
                     other.next_rtc()
             except (mhsm.HsmTopologyException, Diverged):
                 pass
-        tfns, cbs = build_template(c, regs, hsm, log, name_handled=name_handled, fns=shared)
+        tfns, cbs = build_template(c, regs, hsm, log, name_handled=name_handled, fns=shared, bound=(style == "template-bound"))
         texts = {i: hsm.to_code(tfns[i]) for i in tfns}
-        if style in ("template", "template-shared"):
+        if style in ("template", "template-shared", "template-bound"):
             fns = tfns
         else:
             ns = {"spy_on": mhsm.spy_on, "return_status": return_status, "signals": signals}
@@ -166,6 +187,8 @@ def run_build(c, regs, style, start, evs, name_handled=False):
         err = None
     except (mhsm.HsmTopologyException, Diverged) as ex:
         final, err = None, type(ex).__name__
+    except Exception as ex:  # noqa  (a callback or the generated state failed: reported through the comparison)
+        final, err = None, "%s: %s" % (type(ex).__name__, ex)
     if style == "hand":
         log = [(i, k) for i, k in raw if (i, k) in registered]
     return log, final, err, texts
@@ -197,6 +220,12 @@ def explore(run, n_random):
         tmpl = run_build(c, regs, "template", start, evs, name_handled)
         flat = run_build(c, regs, "flat", start, evs, name_handled)
         shar = run_build(c, regs, "template-shared", start, evs, name_handled)
+        if not name_handled:
+            bnd = run_build(c, regs, "template-bound", start, evs, False)
+            run.traces_validated += 1
+            if bnd[0] != tmpl[0] or bnd[1] != tmpl[1] or bnd[2] != tmpl[2]:
+                run.violate("C17/bound-method-callbacks", "callbacks registered as bound methods of a collaborator object ran %s and ended in %s "
+                            "(%s); the same callbacks as plain functions %s, %s (%s)" % (bnd[0][:30], bnd[1], bnd[2], tmpl[0][:30], tmpl[1], tmpl[2]), cj)
         run.traces_validated += 4
         if norm_(shar[0], regs, name_handled) != norm_(tmpl[0], regs, name_handled) or shar[1] != tmpl[1] or shar[2] != tmpl[2]:
             run.violate("C17/shared-template-functions", "a second chart using the same template state functions with its own callbacks ran %s "
@@ -249,7 +278,7 @@ def replay(case):
     cc = case.get("case", case)
     c = charts.GenChart.from_json(cc["chart"])
     regs = {int(i): [tuple(x) for x in v] for i, v in cc["regs"].items()}
-    for style in ("hand", "template", "flat", "template-shared"):
+    for style in ("hand", "template", "flat", "template-shared", "template-bound"):
         r = run_build(c, regs, style, cc["start"], cc["events"], cc.get("name_handled", False))
         print(style, r[:3])
     return 0
